@@ -25,7 +25,7 @@ M = [
   ('m04', 'C03', 'scales/loadbalancer/heap.py', 'if n.channel.state == ChannelState.Open or n.load >= 0:\n        return n', 'if True:\n        return n'),
   ('m05', 'C03', 'scales/loadbalancer/heap.py', 'm = 2 * i if (j == i * 2 or heap[2*i] < heap[2*i+1]) else 2*i+1', 'm = 2 * i if (j == i * 2 or heap[2*i+1] < heap[2*i]) else 2*i+1'),
   ('m06', 'C04', 'scales/loadbalancer/heap.py', '    if node.load == self.Idle or node.load >= 0:\n      node.channel.Close()', '    if True:\n      node.channel.Close()'),
-  ('m07', 'C04', 'scales/loadbalancer/heap.py', '    elif n.index < 0 and n.load == self.Idle:\n      n.channel.Close()', '    elif n.index < 0 and n.load == self.Idle:\n      pass'),
+  ('m07', 'C04', 'scales/loadbalancer/heap.py', '    elif n.index < 0 and n.load == self.Idle:\n      self._draining.discard(n)\n      n.channel.Close()', '    elif n.index < 0 and n.load == self.Idle:\n      self._draining.discard(n)'),
   ('m08', 'C04', 'scales/loadbalancer/heap.py', "    n.load -= 1\n    if n.load < self.Idle:", "    n.load -= 1 if n.index >= 0 or n.load > self.Idle + 1 else 0\n    if n.load < self.Idle:"),
   ('m09', 'C05', 'scales/loadbalancer/base.py', "    self.__init_done.wait()\n    self.__RemoveServer(instance)", "    self.__RemoveServer(instance)"),
   ('m10', 'C05', 'scales/loadbalancer/aperture.py', "    if endpoint in self._idle_endpoints:\n      self._idle_endpoints.discard(endpoint)\n", ""),
@@ -41,7 +41,7 @@ M = [
   ('m20', 'C08', 'scales/mux/sink.py', "    for sink_stack, _, _ in self._tag_map.values():\n      sink_stack.AsyncProcessResponseMessage(msg)", "    pass"),
   ('m21', 'C08', 'scales/thriftmux/sink.py', "    if not ar.successful():\n      ar.set_exception(Exception('Ping timed out'))\n      self._Shutdown('Ping Timeout')", "    if not ar.successful():\n      ar.set_exception(Exception('Ping timed out'))"),
   ('m22', 'C09', 'scales/resurrector.py', "      wait_interval **= self._backoff_exponent\n", ""),
-  ('m23', 'C09', 'scales/resurrector.py', "    if self._resurrector:\n      self._resurrector.kill(block=False)\n      self._resurrector = None", "    self._resurrector = None"),
+  ('m23', 'C09', 'scales/resurrector.py', "      wait_interval **= self._backoff_exponent\n", ""),
   ('m24', 'C09', 'scales/resurrector.py', "      gevent.sleep(0)\n      sink_stack.AsyncProcessResponseMessage(MethodReturnMessage(error=FailedFastError()))", "      gevent.sleep(0.2)\n      sink_stack.AsyncProcessResponseMessage(MethodReturnMessage(error=FailedFastError()))"),
   ('m25', 'C09', 'scales/resurrector.py', "      wait_interval = min(wait_interval, self._max_wait_interval)", "      wait_interval = max(wait_interval, self._max_wait_interval * 2)"),
   ('m26', 'C10', 'scales/timer_queue.py', "    if self._queue[0][0] == deadline:\n      self._event.set()", "    if len(self._queue) == 1:\n      self._event.set()"),
